@@ -62,7 +62,9 @@ pub fn no_panic<T>(f: impl FnOnce() -> T) -> Option<T> {
 }
 
 pub fn quiet_panics() {
-    std::panic::set_hook(Box::new(|_| {}));
+    if std::env::var("HX_LOUD").is_err() {
+        std::panic::set_hook(Box::new(|_| {}));
+    }
 }
 
 /// Command line: `<bin> --seed N --tier quick|thorough --dir D [--replay FILE] [k=v ...]`
